@@ -28,7 +28,7 @@ CLAIMED = {
             "Exploration: generated histories of 1-5 equations over a bounded universe, each step compared with the reference (success, joint resolved tuple a variant of the mgu, earlier bindings kept, sides identical); all ordered pairs of small terms enumerated, also after one prior equation.",
             "Trusts harness/src/rt.rs as the specification of unification without occurs check and with the `$_` wildcard.", "DESIGN.md §3.3, §4 C06"),
     "C07": ("metamorphic testing (swap sides, rename apart, wrap as head/goal) over the C06 generator + exhaustive pairs",
-            "Exploration: every generated history is re-run with sides swapped, after recreate_variables, both, and as p(t) = p(u); success and resolved values must agree.",
+            "Exploration: every generated history is re-run with sides swapped, after recreate_variables, both, as p(t) = p(u), with every list rebuilt by the documented constructor make_linked_list, and - through the knowledge base - as the fact p(t) asked with the query p(u) and the fact p(u) asked with p(t) (arity 1 and 2, clause lookup and renaming included); success and resolved values must agree.",
             "Each variant is additionally compared with the reference unifier.", "DESIGN.md §4 C07"),
     "C08": ("invariant checking over generated alias-heavy unification histories (stateful, history as vec of ops) + exhaustive alias histories",
             "Exploration: histories of up to 8 equations biased to variable/variable steps, and (1 case in 8) alias chains over 8-64 variables (runs of $Vi = $Vi+1 in either direction and operand order, cross links, the two ends of a run related in either order); after every step no binding chain may return to its start (own walker and a bind hook that observes the cycle at creation); all histories of 1-4 alias steps over 3 variables enumerated.",
@@ -46,7 +46,7 @@ CLAIMED.update({
             "Exploration: generated clauses (repeated variables, lists incl. [], tails, all goal kinds, function terms) renamed through Rule/Unifiable/Goal::recreate_variables (once and twice, counter at 0 or a random start), get_rule and make_query; resetting ids must give back exactly the original value, lists stay well formed, same name <=> same id, ids are fresh and contiguous; during generated searches get_rule is called after every answer and its ids must be disjoint from everything the answer and the query use.",
             "The mid-search probe restores the id counter afterwards so the observed search is undisturbed.", "DESIGN.md §4 C10"),
     "C12": ("reference fold (checked i64 / f64) over generated operand tuples in four presentations (API literal, API variables, text function form, text infix form)",
-            "Exploration: op x 1-4 numbers from a pool with extremes x presentation x partner x side; result compared bit-exactly with the harness's left fold and the whole one-rule program with the reference solver.",
+            "Exploration: op x 1-4 numbers from a pool with extremes x presentation x partner x side; result compared bit-exactly with the harness's left fold and the whole one-rule program with the reference solver; partners include the equal constant, the neighbouring double / integer (1 ulp or 1 away), the same value in the other numeric type.",
             "Overflow and integer division by zero are discarded (outside the claim).", "DESIGN.md §4 C12"),
     "C13": ("metamorphic testing (function on the left vs on the right) plus reference value, over generated function/partner pairs",
             "Exploration: arithmetic and join function terms paired with 10 kinds of partner, unified in both orders inside a rule; both orders must give the same answers and equal the reference's.",
